@@ -199,7 +199,7 @@ def run(tier, seed):
     pf = lattice.PointsFile(pts)
     try:
         res = tlc.run("PurifRBM", constants={"TMax": 1800, "Lanes": 32},
-                      defs={"Archs": "{<<1,1,1,2>>, <<2,1,1,3>>}" if quick else "{<<1,1,1,2>>, <<2,1,1,3>>, <<1,2,1,2>>, <<2,1,2,2>>}",
+                      defs={"Archs": "{<<1,1,1,2>>, <<2,1,1,3>>}" if quick else "{<<1,1,1,2>>, <<2,1,1,3>>, <<1,2,1,2>>, <<1,1,2,3>>}",
                             "Vals": "{-1, 1, 2}" if quick else "{-2, -1, 1, 2}"},
                       invariants=["WellDefined", "Marginal", "PartialTrace", "Hermitian", "Diagonal", "TraceIsZ", "Export"],
                       env={"POINTS_FILE": pf.path}, workers=16, timeout=3400)
@@ -214,9 +214,10 @@ def run(tier, seed):
     exps = res.exports
     if len({e["idx"] for e in exps if e["idx"] > 0}) != len(pts):
         raise common.MachineryError("TLC did not handle every supplied point")
-    if quick:
-        enum = [e for e in exps if e["idx"] == 0]
-        exps = [e for e in exps if e["idx"] > 0] + rng.sample(enum, min(250, len(enum)))
+    # TLC checks the identities at EVERY enumerated point; a seeded sample of them is replayed into the code
+    enum = [e for e in exps if e["idx"] == 0]
+    chk.extra["enumerated_points_checked_by_tlc"] = len(enum)
+    exps = [e for e in exps if e["idx"] > 0] + rng.sample(enum, min(250 if quick else 4000, len(enum)))
     for n, e in enumerate(exps):
         replay(chk, e, n)
         chk.nontriv(str(e["pt"]))
